@@ -359,6 +359,57 @@ fn run_case(ctx: &mut Ctx, ls: &Layouts, k: &Value, compressed: bool, c: &Case, 
     }
 }
 
+/// C15's clause on every time field, laid out by the *specification* (offset, width and unit from the transcription, not
+/// from the crate's declarations): the wire value decodes to value x unit and re-encodes to the same bytes
+pub fn time_fields_for_c15(ctx: &mut Ctx) {
+    let ls = load_layouts();
+    let spec = load_spec();
+    let mut n = 0u64;
+    for k in spec["kinds"].as_array().unwrap() {
+        let kind = k["name"].as_str().unwrap_or("?").to_string();
+        let fields = k["fields"].as_array().unwrap();
+        let tail = &k["tail"];
+        if !fields.iter().any(|f| cls(f) == "dur") { continue; }
+        let base: Vec<FV> = fields.iter().enumerate().map(|(i, f)| if cls(f) == "uint" && is_bool_field(&ls, k, f) { FV::Num(1) } else { baseline(&kind, f, i as u64) }).collect();
+        let base_elems: Vec<Vec<FV>> = if tail["k"] == "vec" { vec![elem_baseline(&kind, tail, 0)] } else { vec![] };
+        let base_text: Vec<u8> = if tail["k"] == "text" { b"hi\0\0".to_vec() } else { vec![] };
+        for (i, f) in fields.iter().enumerate() {
+            if cls(f) != "dur" { continue; }
+            n += 1;
+            let w = width(f);
+            let mut vals: Vec<u64> = vec![0, 1, 9, 10, 255, 256, 65534, 65535];
+            if w == 4 { vals.extend_from_slice(&[65536, 65537, 75000, 0x0100_0000, 0x1999_9999, 0x7fff_ffff, 0xffff_ffff]); }
+            for v in vals {
+                for compressed in [true, false] {
+                    let mut a = base.clone();
+                    a[i] = FV::Num(v);
+                    let c = image(k, compressed, &a, &base_elems, &base_text);
+                    let input = format!("pkt.rt {}", frame_text(compressed, &c.frame));
+                    ctx.oracle_eval("spec-time-field");
+                    match real_decode(compressed, &c.frame) {
+                        Dec::Pkt(p, _) => {
+                            let json = serde_json::to_value(&p).unwrap();
+                            let unit = f["unit"].as_u64().unwrap_or(1) as u128;
+                            let got = get_norm(&json, f["code"].as_str().unwrap_or("")).and_then(dur_ms_of);
+                            if got != Some(v as u128 * unit) {
+                                ctx.violation(&format!("c15/spec-field/{}.{}/read", kind, fname(f)), "a time field does not decode to its wire value times the field's unit", &input, &format!("{} ms", v as u128 * unit), &format!("{:?} ms", got));
+                            }
+                            match real_encode(compressed, &p) {
+                                Some(Ok(b)) if b == c.frame => {},
+                                Some(Ok(b)) => ctx.violation(&format!("c15/spec-field/{}.{}/reencode", kind, fname(f)), "a time field's wire value does not survive decoding and re-encoding", &input, &hex(&c.frame), &hex(&b)),
+                                _ => {},   // refusal of a decoded value: C03's subject
+                            }
+                        },
+                        Dec::Panic => ctx.violation(&format!("c15/spec-field/{}.{}/panic", kind, fname(f)), "decoding a frame with an in-range time field aborted", &input, "a packet", "panic"),
+                        _ => ctx.violation(&format!("c15/spec-field/{}.{}/rejected", kind, fname(f)), "a frame with an in-range time field is rejected", &input, "a packet", "error"),
+                    }
+                }
+            }
+        }
+    }
+    *ctx.distribution.entry("time fields of the specification table".into()).or_insert(0) = n;
+}
+
 fn elem_baseline(kind: &str, tail: &Value, n: u64) -> Vec<FV> {
     tail["elt"].as_array().unwrap().iter().enumerate().map(|(j, f)| baseline(kind, f, 7 * n + j as u64)).collect()
 }
@@ -366,7 +417,7 @@ fn elem_baseline(kind: &str, tail: &Value, n: u64) -> Vec<FV> {
 pub fn run(ctx: &mut Ctx) {
     let ls = load_layouts();
     if let Some(lines) = ctx.replay.clone() {
-        for l in lines { let _ = crate::c01::replay(ctx, &ls, &l); }
+        for l in lines { if l.starts_with("c02.edit") { collection_edit_cases(ctx); continue; } let _ = crate::c01::replay(ctx, &ls, &l); }
         // the oracle side of a replayed frame: find the kind by type number and re-run the typed comparison is not
         // possible without the assignment; the replayed line shows decode + re-encode, which is what differs
         return;
@@ -471,8 +522,54 @@ pub fn run(ctx: &mut Ctx) {
         return;
     }
     sub_typed(ctx, &ls, &spec);
+    collection_edit_cases(ctx);
     *ctx.distribution.entry("field x value cases".into()).or_insert(0) = n_fields;
     ctx.exhaustive_domains.push("every kind of the specification table x every field x {every enumerant, every single flag bit and all bits, boundary integers, texts, cars} x both size modes; vectors of 0,1,2,3,max elements; texts of min, 8, max bytes".into());
+}
+
+/// IS_MAL / IS_IPB built and *edited* through their public set API (insert, remove, clear) before being written: NumM / NumB is
+/// the number of entries that follow, Size is 8 + 4 x that number, whatever the history of the value
+fn collection_edit_cases(ctx: &mut Ctx) {
+    use insim::insim::{Ipb, Mal};
+    use insim_core::vehicle::Vehicle;
+    use std::net::Ipv4Addr;
+    // histories: (inserts, removes of the i-th inserted, clear first?, inserts after)
+    let histories: Vec<(usize, Vec<usize>, bool, usize)> = vec![(3, vec![1], false, 0), (3, vec![0, 2], false, 0), (1, vec![0], false, 0), (4, vec![3], false, 2), (2, vec![], true, 1), (5, vec![0, 1, 2, 3, 4], false, 0), (3, vec![1], true, 2)];
+    for (hi, (ins, rem, clear, after)) in histories.iter().enumerate() {
+        for compressed in [true, false] {
+            for which in ["Mal", "Ipb"] {
+                ctx.oracle_eval("collection-edit");
+                let op = format!("c02.edit {} {} {}", which, if compressed { "c" } else { "u" }, hi);
+                let (frame, n): (Option<Vec<u8>>, usize) = if which == "Mal" {
+                    let mut m = Mal::default();
+                    for i in 0..*ins { let _ = m.insert(Vehicle::Mod(0x0010_0000 + i as u32)); }
+                    for r in rem { let _ = m.remove(&Vehicle::Mod(0x0010_0000 + *r as u32)); }
+                    if *clear { m.clear(); }
+                    for i in 0..*after { let _ = m.insert(Vehicle::Mod(0x0020_0000 + i as u32)); }
+                    let n = m.len();
+                    (real_encode(compressed, &insim::Packet::Mal(m)).and_then(|r| r.ok()), n)
+                } else {
+                    let mut m = Ipb::default();
+                    for i in 0..*ins { let _ = m.insert(Ipv4Addr::from(0x0a00_0001 + i as u32)); }
+                    for r in rem { let _ = m.remove(&Ipv4Addr::from(0x0a00_0001 + *r as u32)); }
+                    if *clear { m.clear(); }
+                    for i in 0..*after { let _ = m.insert(Ipv4Addr::from(0x0b00_0001 + i as u32)); }
+                    let n = m.len();
+                    (real_encode(compressed, &insim::Packet::Ipb(m)).and_then(|r| r.ok()), n)
+                };
+                match frame {
+                    None => ctx.violation(&format!("c02/{}/edit/encode-fails", which.to_uppercase()), "a set built through its public API cannot be encoded", &op, "a frame", "error"),
+                    Some(f) => {
+                        let want_len = 8 + 4 * n;
+                        let announced = if compressed { f[0] as usize * 4 } else { f[0] as usize };
+                        if f.len() != want_len || announced != want_len || f[3] as usize != n {
+                            ctx.violation(&format!("c02/{}/edit/count", which.to_uppercase()), "after editing the set the count byte / size no longer describe the entries that follow", &op, &format!("count {} and {} bytes", n, want_len), &format!("count {} and {} bytes (size byte announces {}): {}", f[3], f.len(), announced, hex(&f)));
+                        }
+                    },
+                }
+            }
+        }
+    }
 }
 
 /// is the crate's field at this offset a boolean? (decided from the regenerated layout, only to know which non-0/1 bytes cannot re-encode identically)
